@@ -39,8 +39,8 @@ from fpy2.transform import ForUnrollStrategy, SplitLoopStrategy
 from fpy2 import ast as A
 
 NSHARDS = 64
-TIMEOUT_S = 4.0
-TIMEOUT_CONFIRM_S = 20.0
+TIMEOUT_S = 3.0            # CPU seconds
+TIMEOUT_CONFIRM_S = 12.0
 KF_VALUE = 3
 
 
@@ -184,14 +184,15 @@ def _on_alarm(signum, frame):
 
 def run(fn, xs, ys, k, limit=TIMEOUT_S):
     """('ret', value) | ('exc', type name, text) | ('timeout',) -- on fresh lists."""
-    signal.signal(signal.SIGALRM, _on_alarm)
+    # the limit is CPU time of this process (ITIMER_PROF), so machine load cannot trip it
+    signal.signal(signal.SIGPROF, _on_alarm)
     a, b = list(xs), list(ys)
     try:
-        signal.setitimer(signal.ITIMER_REAL, limit)
+        signal.setitimer(signal.ITIMER_PROF, limit)
         try:
             v = fn(a, b, k)
         finally:
-            signal.setitimer(signal.ITIMER_REAL, 0)
+            signal.setitimer(signal.ITIMER_PROF, 0)
     except _Timeout:
         return ('timeout',)
     except RecursionError as e:
@@ -292,7 +293,7 @@ class Check(BaseCheck):
         'metamorphic: only inputs on which the original returns are judged',
         'STRICT judged only where every rewritten loop has a length divisible by the factor (exact lengths)',
         'zip sources have equal length (mismatched zip is documented undefined behaviour)',
-        'a time limit (4 s, confirmed at 20 s) stands for non-termination of the transformed program',
+        'a CPU-time limit (3 s, confirmed at 12 s; a judged call needs < 0.05 s) stands for non-termination of the transformed program',
         'variable split factors are >= 1 (the documented runtime assertion otherwise)',
     ]
     trusted_base = ['fpy2 front end and interpreter (both sides of the comparison run on them)',
